@@ -43,13 +43,13 @@ def cyclic(edges):
             else: state[n] = 2; stack.pop()
     return False
 
-def operations(rng, G, g):
+def operations(rng, G, g, prev=()):
     """a random read-only operation as (name, thunk)"""
     from opcua_tools import navigation as nav
     uris = [u for u in g.uris if u in G.namespaces]
     names = sorted(set(G.nodes["BrowseName"]))
     objs = sorted(set(G.nodes.loc[G.nodes["NodeClass"] == "UAObject", "BrowseName"]))
-    k = rng.choice(["write", "write", "write", "norm_nodes", "norm_refs", "lookup", "closure", "relatives", "paths", "neighbours", "circular", "instances", "browsenames", "classes", "selector", "subtypes"])
+    k = rng.choice(["write", "write", "write", "norm_nodes", "norm_refs", "lookup", "lookup", "typed_lookup", "typed_lookup", "closure", "relatives", "paths", "neighbours", "circular", "instances", "browsenames", "classes", "selector", "subtypes"])
     uri = rng.choice(uris)
     if k == "write":
         inc = rng.random() < 0.6; nv = rng.choice([None, None, "7.7.7", "8.0"])
@@ -58,8 +58,19 @@ def operations(rng, G, g):
         return ("write", uri, inc, nv), f
     if k == "norm_nodes": u = rng.choice([None, uri]); return ("norm_nodes", u), lambda: G.get_normalized_nodes_df(u)
     if k == "norm_refs": u = rng.choice([None, uri]); return ("norm_refs", u), lambda: G.get_normalized_references_df(u)
+    # look-ups prefer names that several nodes carry and the name an earlier look-up used: an answer must not depend on what was asked before
+    multi = sorted(set(n for n in names if (G.nodes["BrowseName"] == n).sum() > 1))
+    last = [h[1] for h in prev if h[0] in ("lookup", "typed_lookup")]
+    def pick_name(extra):
+        c = rng.random()
+        if last and c < 0.5: return last[-1]
+        if multi and c < 0.8: return rng.choice(multi)
+        return rng.choice(names + extra)
     if k == "lookup":
-        nm = rng.choice(names + ["Absent"]); return ("lookup", nm), lambda: G.nodeid_by_browsename(nm)
+        nm = pick_name(["Absent"]); return ("lookup", nm), lambda: G.nodeid_by_browsename(nm)
+    if k == "typed_lookup":
+        nm = pick_name([]); fn = rng.choice(["object_by_browsename", "object_type_by_browsename", "data_type_by_browsename", "reference_type_by_browsename", "variable_type_by_browsename"])
+        return ("typed_lookup", nm, fn), lambda: getattr(G, fn)(nm)
     if k == "closure": return ("closure",), lambda: nav.fast_transitive_closure(G.references[G.references["Src"] != G.references["Trg"]])
     if k == "relatives":
         cut = rng.choice([None, 1, 2]); keep = rng.random() < 0.5
@@ -71,7 +82,7 @@ def operations(rng, G, g):
         try:
             tys = [G.reference_type_by_browsename(n) for n in ("HasComponent", "Organizes")]
             pr = G.references[G.references["ReferenceType"].isin(tys)]
-            if cyclic(zip(pr["Src"], pr["Trg"])): return operations(rng, G, g)       # the walk would never end: another operation instead
+            if cyclic(zip(pr["Src"], pr["Trg"])): return operations(rng, G, g, prev)       # the walk would never end: another operation instead
         except Exception: pass
         return ("paths", root), lambda: G.create_node_paths_by_reference_types(root, ["HasComponent", "Organizes"])
     if k == "neighbours":
@@ -113,20 +124,34 @@ def check(ctx):
     reqs = []; meta = []
     try:
         for ci in range(12 if ctx.quick() else 120):
-            g, ds = writeprops.make_graph(rng, True)
+            g, ds = writeprops.make_graph(rng, True, hostile=rng.random() < 0.5, clash=rng.random() < 0.7)
             files = [(n, docs.render(d, rng)) for n, d, _ in ds]
             paths = graphprops.write_files(work, files)
             st, G = graphprops.build(paths)
             if G is None or not [u for u in g.uris if u in G.namespaces]: continue
-            fresh = copy.deepcopy(G)
+            pristine = copy.deepcopy(G)            # never operated on: every comparison run starts from a copy of it
             s0 = snapshot(G)
             tables = writeprops.graph_tables(G)
             hist = []
             n_ops = rng.randint(4, 8) if ctx.quick() else rng.randint(5, 40)
             state = rng.getstate()
-            for step in range(n_ops):
+            # a fixed opening when some browse name is carried by nodes of several classes: the typed look-up that succeeds, then the untyped one
+            TYPED = {"UAObject": "object_by_browsename", "UAObjectType": "object_type_by_browsename", "UADataType": "data_type_by_browsename",
+                     "UAReferenceType": "reference_type_by_browsename", "UAVariableType": "variable_type_by_browsename"}
+            opening = []
+            byname = {}
+            for nm_, cl_ in zip(G.nodes["BrowseName"], G.nodes["NodeClass"]): byname.setdefault(nm_, []).append(cl_)
+            for nm_, cls_ in sorted(byname.items()):
+                if len(set(cls_)) > 1:
+                    one = [c for c in sorted(set(cls_)) if c in TYPED and cls_.count(c) == 1]
+                    if one: opening = [("typed_lookup", nm_, TYPED[one[0]]), ("lookup", nm_)]; break
+            for step in range(n_ops + len(opening)):
                 st_before = rng.getstate()
-                desc, thunk = operations(rng, G, g)
+                if step < len(opening):
+                    od = opening[step]
+                    mk = (lambda GG, od=od: (lambda: getattr(GG, od[2])(od[1])) if od[0] == "typed_lookup" else (lambda: GG.nodeid_by_browsename(od[1])))
+                    desc, thunk = od, mk(G)
+                else: desc, thunk = operations(rng, G, g, list(hist))
                 out = run_op(thunk)
                 hist.append(desc)
                 d = diff_snap(s0, snapshot(G))
@@ -134,10 +159,11 @@ def check(ctx):
                 if d: ctx.fail("C15/graph-changed:" + desc[0], case, "after %r: %s" % (desc, d)); break
                 # the same operation on the fresh graph
                 rng2_state = rng.getstate(); rng.setstate(st_before)
-                desc2, thunk2 = operations(rng, fresh, g)
+                fresh = copy.deepcopy(pristine)
+                if step < len(opening): desc2, thunk2 = desc, mk(fresh)
+                else: desc2, thunk2 = operations(rng, fresh, g, list(hist[:-1]))
                 rng.setstate(rng2_state)
                 out2 = run_op(thunk2)
-                if diff_snap(s0, snapshot(fresh)): fresh = copy.deepcopy(G)
                 if out != out2: ctx.fail("C15/result-depends-on-history:" + desc[0], case, "%r gave a different result after %d earlier operations" % (desc, step))
                 if desc[0] == "write":
                     reqs.append(writeprops.write_request(tables, desc[1], desc[2], desc[3], "out.xml")); meta.append((ci, desc, out))
